@@ -283,6 +283,25 @@ func c01(c *fw.Ctx) {
 		}
 	}
 	c.Exhaustive("QR (version, level, mode) capacity boundaries: all 640, lengths capacity and capacity-1")
+	// (a2) every character of the Kanji mode repertoire once, 60 to a symbol
+	{
+		kt := kanjiTable()
+		for lo := 0; lo < len(kt); lo += 60 {
+			lo := lo
+			c.Run(fmt.Sprintf("kanji-sweep/%d", lo), func(r *fw.Rec) {
+				hi := lo + 60
+				if hi > len(kt) {
+					hi = len(kt)
+				}
+				o := c01Opts{text: string(kt[lo:hi]), level: qrAllLevels[(lo/60)%4], version: 0, mask: -1, charset: []string{"Shift_JIS", "SJIS"}[(lo/60)%2]}
+				if c01RoundTrip(r, o, "kanji-sweep") {
+					r.TallyN("kanji_repertoire_characters_round_tripped", int64(hi-lo))
+				}
+			})
+		}
+		c.Exhaustive("the double-byte Shift_JIS characters eligible for Kanji mode (each once)")
+		c.Floor("kanji_repertoire_characters_round_tripped", 6000)
+	}
 	// (b) random classes
 	nrand := c.Pick(8000, 500000)
 	for i := 0; i < nrand; i++ {
